@@ -422,7 +422,27 @@ fn classify(outcome: &CheckTxOutcome) -> Out {
         CheckTxOutcome::AddedToParked(_) => Out::AddedParked,
         CheckTxOutcome::AlreadyInPending(_) => Out::AlreadyPending,
         CheckTxOutcome::AlreadyInParked(_) => Out::AlreadyParked,
-        CheckTxOutcome::FailedChecks(_) => Out::FailedChecks,
+        CheckTxOutcome::FailedChecks(e) => Out::FailedChecks(
+            match e {
+                crate::checked_transaction::CheckedTransactionInitialCheckError::TooLarge {
+                    ..
+                } => "too-large",
+                crate::checked_transaction::CheckedTransactionInitialCheckError::Decode(_) => "decode",
+                crate::checked_transaction::CheckedTransactionInitialCheckError::Convert(_) => "convert",
+                crate::checked_transaction::CheckedTransactionInitialCheckError::InvalidNonce {
+                    ..
+                } => "invalid-nonce",
+                crate::checked_transaction::CheckedTransactionInitialCheckError::ChainIdMismatch {
+                    ..
+                } => "chain-id",
+                crate::checked_transaction::CheckedTransactionInitialCheckError::CheckedAction(_) => {
+                    "checked-action"
+                }
+                crate::checked_transaction::CheckedTransactionInitialCheckError::InternalError {
+                    ..
+                } => "internal",
+            },
+        ),
         CheckTxOutcome::FailedInsertion(e) => Out::FailedInsertion(format!("{e:?}")),
         CheckTxOutcome::RemovedFromMempool {
             reason, ..
@@ -765,7 +785,7 @@ impl Sim {
                             Body::FeeChange {
                                 ..
                             } if acct != 0 => Body::Seq {
-                                len: 0,
+                                len: 1,
                                 fee_asset: 0,
                             },
                             other => other.clone(),
